@@ -210,6 +210,22 @@ pub fn run(cfg: &J) -> J {
                     local_bad.push(json!({"rule":"accessor","why":format!("cell iteration visits {} cells, the list has {} elements", o["cells"], c["cars"].as_array().unwrap().len()),"case":{"xs":c["xs"],"t":c["t"]}}));
                 }
             }
+            // construction is injective: a list differs from its own proper prefix and from its extension (same tail),
+            // and as keys of an association list the three are told apart
+            if let (Some((_, v)), false) = (variants.first(), xs.is_empty()) {
+                let shorter = Value::append(xs[..xs.len() - 1].iter().cloned(), t.clone());
+                let longer = Value::append(xs.iter().cloned().chain(std::iter::once(xs[0].clone())), t.clone());
+                for (name, w) in [("its own proper prefix", &shorter), ("its own extension", &longer)] {
+                    if v == w || w == v {
+                        local_bad.push(json!({"rule":"accessor","why":format!("the list compares equal to {} with the same tail", name),"case":{"xs":c["xs"],"t":c["t"]}}));
+                    }
+                }
+                let alist = Value::list(vec![Value::cons(shorter.clone(), 1u8), Value::cons(v.clone(), 2u8), Value::cons(longer.clone(), 3u8)]);
+                let got: Vec<Option<u64>> = [&shorter, v, &longer].iter().map(|k| alist.get(*k).and_then(|x| x.as_u64())).collect();
+                if got != [Some(1), Some(2), Some(3)] || alist[v] != 2u8 {
+                    local_bad.push(json!({"rule":"accessor","why":format!("lookup by value with the list, its prefix and its extension as keys finds {:?}", got),"case":{"xs":c["xs"],"t":c["t"]}}));
+                }
+            }
             (local_bad, variants.len())
         });
         match r {
